@@ -1,5 +1,6 @@
 import MdkVerif.Model.Client
 import MdkVerif.Proofs.Client
+import MdkVerif.Props.C08
 /-
   C06 — a refused event has no effect (the frame part; absence of panics is a runtime fact that the
   harness searches for, totality of the model is NOT presented as a no-panic proof).
@@ -96,6 +97,14 @@ theorem refuse_frame_partial (fuel nx : Nat) (c : Cl) (e : Ev) (hs : Synced c.g)
   cases fuel with
   | zero => exact key _ h
   | succ f => exact key _ h
+
+/-- an evicted member (whose record is deliberately NOT in step with its merged MLS state, so `refuse_frame_partial`
+    does not speak about it): every delivery is refused and leaves the projection as it was, for every event and fuel -/
+theorem refuse_frame_evicted (fuel nx : Nat) (c : Cl) (e : Ev) (ha : c.g.active = false) :
+    isRefusal (deliverN fuel nx c e).2 = true ∧ proj (deliverN fuel nx c e).1 = proj c := by
+  obtain ⟨_, hres, hp⟩ := C08.evicted_deliver fuel nx c e ha
+  refine ⟨?_, hp⟩
+  rcases hres with h | h | h | h <;> rw [h] <;> rfl
 
 /-! ### the hypothesis is necessary: a commit that is 'better' by timestamp but NOT authorised makes
     the receiver roll back first and reject afterwards (signature `rollback-before-authorisation`) -/
